@@ -1,6 +1,7 @@
 import JwtModel.V1
 import JwtProofs.Decode
 import Props.CodecRoundTrip
+import Props.CodecText
 /-!
 # C19 — the bundled version-1 library is self-consistent
 
